@@ -46,6 +46,13 @@ ASSUMPTIONS = [
 TRUSTED = ["z3", "numpy object-array slicing/copy semantics", "pandas DataFrame construction"]
 
 COLS = ["a", "b", "c"]
+# a frame whose integer column labels are not their positions (default labels after a column re-ordering): a label must be
+# resolved through the frame's index, never used as a position
+INT_LABELS = [2, 0, 1]
+
+
+def _labels(container):
+    return INT_LABELS if container == "frame-int" else COLS
 
 
 def _data(ctx, n, container, int_col=None, concrete_col=None):
@@ -61,13 +68,13 @@ def _data(ctx, n, container, int_col=None, concrete_col=None):
                 row.append(ctx.real(f"c{r}_{j}"))
         rows.append(row)
     arr = obj_array(rows) if rows else np.empty((0, 3), dtype=object)
-    if container == "frame":
-        return pd.DataFrame(arr, columns=COLS), arr
+    if container in ("frame", "frame-int"):
+        return pd.DataFrame(arr, columns=_labels(container)), arr
     return arr, arr
 
 
 def _col(container, j):
-    return COLS[j] if container == "frame" else j
+    return _labels(container)[j] if container in ("frame", "frame-int") else j
 
 
 def _window(ctx, n):
@@ -96,7 +103,7 @@ def _same_container(ctx, data, out, snapshot):
     ctx.prove(type(out) is type(data), "same-container-type")
     ctx.prove(_cells(out).shape == snapshot.shape, "same-shape")
     if isinstance(data, pd.DataFrame):
-        ctx.prove(list(out.columns) == COLS, "same-column-labels")
+        ctx.prove(list(out.columns) == list(data.columns), "same-column-labels")
     ctx.prove(out is not data, "returns-a-new-object")
     # the input still holds the same cells
     now = _cells(data)
@@ -327,6 +334,14 @@ def jobs(tier):
             for join in (False, True):
                 out.append(Job(f"label{'join' if join else 'swap'}-n{n}-{container}", "checks.c20:body_label_swap",
                                {"n": n, "container": container, "join": join}, expect=exp))
+    for n in (2,) if q else (2, 3):
+        exp = ("empty", "full", "inner")
+        out.append(Job(f"shift-n{n}-frame-int", "checks.c20:body_feature_shift", {"n": n, "container": "frame-int", "col": 0}, expect=exp))
+        out.append(Job(f"noise-n{n}-frame-int", "checks.c20:body_noise", {"n": n, "container": "frame-int", "col": 1}, expect=exp))
+        out.append(Job(f"swap-n{n}-frame-int", "checks.c20:body_feature_swap", {"n": n, "container": "frame-int", "c1": 0, "c2": 2}, expect=exp))
+        for join in (False, True):
+            out.append(Job(f"label{'join' if join else 'swap'}-n{n}-frame-int", "checks.c20:body_label_swap",
+                           {"n": n, "container": "frame-int", "join": join}, expect=exp))
     # one injector instance re-used across container kinds
     for container, warm in (("array", "frame"), ("frame", "array")):
         exp = ("reused-instance", "empty", "full", "inner")
